@@ -13,6 +13,7 @@ oracle       : no initiate request of one user arrives while another user's
                or gap.
 """
 import asyncio
+import os
 import struct
 
 from hypothesis import strategies as st
@@ -41,14 +42,55 @@ ASSUMPTIONS = [
     "users of one terminal in a process share the Terminal object (and so "
     "its lock), as the library intends",
     "users are told apart by the object index of their initiate requests",
-    "the cross-process part models POSIX record locks (see vf/sched/locks.py, "
-    "validated against real fcntl at start-up)",
+    "the cross-process part runs processes as harness-scheduled threads "
+    "(vf/sched.py): interleaving at system-call granularity, POSIX record "
+    "locks modelled per process and compared with the kernel in the selftest",
+    "in the cross-process part an exchange is: take the lock, draw 1-3 "
+    "counters, wait (other tasks of the process may run), leave",
 ]
 EXAMPLES = {"quick": 60, "thorough": 1500}
 MIN_NONTRIVIAL = {"quick": 200, "thorough": 3000}
 
 
+@st.composite
+def xproc_strategy(draw):
+    n = draw(st.sampled_from([2, 2, 3]))
+    parts = []
+    for i in range(n):
+        ntasks = draw(st.sampled_from([1, 1, 2]))
+        tasks = []
+        for _ in range(ntasks):
+            tasks.append(draw(st.lists(st.fixed_dictionaries({
+                "term": st.integers(0, 1),
+                "msgs": st.integers(1, 3),
+            }), min_size=1, max_size=4)))
+        parts.append({"tasks": tasks})
+    chunks = draw(st.lists(
+        st.tuples(st.integers(0, n - 1),
+                  st.sampled_from([1, 1, 2, 3, 5, 8, 13])),
+        min_size=0, max_size=40))
+    return {"kind": "xproc", "participants": parts,
+            "chunks": [list(c) for c in chunks]}
+
+
+def enumerate_cases(tier):
+    """two processes, one exchange of two messages each on the same terminal,
+    every placement of one preemption - this covers the window between the
+    creation and the initialisation of the lock file"""
+    one = {"tasks": [[{"term": 0, "msgs": 2}]]}
+    for first in (0, 1):
+        for s in range(0, 14):
+            for t in range(1, 14):
+                yield {"kind": "xproc", "participants": [one, one],
+                       "chunks": [[first, s], [1 - first, t], [first, 100],
+                                  [1 - first, 100]]}
+
+
 def strategy(tier):
+    return st.one_of(inproc_strategy(), inproc_strategy(), xproc_strategy())
+
+
+def inproc_strategy():
     op = st.fixed_dictionaries({
         "op": st.sampled_from(["read", "write"]),
         "len": st.one_of(st.integers(0, 6), st.integers(0, 120),
@@ -92,7 +134,141 @@ class WatchingServer(simsdo.SdoServer):
         return super().sdo(b)
 
 
+def run_xproc(case):
+    """participants = processes sharing /run/ebpf/<if> through LockFile and
+    ParallelMailboxLock, every os / fcntl operation a scheduling point"""
+    import ebpfcat.lock as lockmod
+    from .. import sched as vsched
+    from ..runner import HarnessError
+
+    n = len(case["participants"])
+    log = []          # (terminal, pid, task, what, counter)
+    errors = {}
+    with vsched.scratch_root() as root:
+        s = vsched.Sched(root)
+        osp = vsched.OsProxy(s)
+
+        async def participant(pid):
+            script = case["participants"][pid]
+            try:
+                lf = lockmod.LockFile("/run/ebpf/vf0", 1000, 1016)
+            except Exception as e:
+                errors[pid] = f"LockFile: {type(e).__name__}: {e}"
+                return
+            locks = {}
+
+            async def user(ti, exchanges):
+                for ex in exchanges:
+                    no = 1003 + ex["term"]
+                    if no not in locks:
+                        # one lock object per terminal and process, like the
+                        # Terminal object holds it
+                        locks[no] = lockmod.ParallelMailboxLock(lf, no)
+                    lock = locks[no]
+                    try:
+                        async with lock:
+                            log.append((no, pid, ti, "enter", None))
+                            for _ in range(ex["msgs"]):
+                                c = lock.next_counter()
+                                log.append((no, pid, ti, "msg", c))
+                                s.yield_point("exchange")
+                                # waiting for the response: other tasks of
+                                # this process run
+                                await asyncio.sleep(0)
+                            log.append((no, pid, ti, "exit", None))
+                    except Exception as e:
+                        errors[pid] = (f"exchange: {type(e).__name__}: {e}")
+                        return
+            await asyncio.gather(*[user(ti, exs) for ti, exs
+                                   in enumerate(script["tasks"])])
+
+        chunks = [list(c) for c in case["chunks"]]
+
+        def policy(step, runnable, waiting, last):
+            while chunks:
+                p, k = chunks[0]
+                if k <= 0 or p not in runnable:
+                    chunks.pop(0)
+                    continue
+                chunks[0][1] -= 1
+                return p
+            if last in runnable and not waiting[last].startswith("sleep("):
+                return last
+            # somebody who sleeps (polls) lets the others run
+            later = [p for p in runnable if last is None or p > last]
+            return (later or runnable)[0]
+
+        result = None
+        with vsched.patched(lockmod, os=osp, fcntl=vsched.FcntlProxy(s),
+                            sleep=vsched.make_sleep(s),
+                            logging=vsched.LogProxy(s)):
+            for pid in range(n):
+                s.spawn(pid, participant)
+            try:
+                result = s.run(policy, max_steps=20000)
+            except vsched.Deadlock as e:
+                result = f"no progress: {e}"
+            finally:
+                for fd in list(s.fd_owner):
+                    try:
+                        os.close(fd)
+                    except OSError:
+                        pass
+    for pid, out in s.done.items():
+        if out.startswith("error"):
+            raise HarnessError(f"participant {pid}: {out}")
+    ops = [f"{p}:{op}" for p, op in s.trace]
+    multi_task = any(len(p["tasks"]) > 1 for p in case["participants"])
+    classes = ["cross-process", f"processes={n}"] + (
+        ["two-tasks-in-a-process"] if multi_task else [])
+
+    def fail(what, facts=()):
+        return dict(ok=False, nontrivial=True, classes=classes,
+                    facts=list(facts), bucket=("xproc", what[:40]),
+                    what=f"cross-process: {what}; mailbox log "
+                         f"{[(a, b, c, d[0], e) for a, b, c, d, e in log[-14:]]}"
+                         f"; operations {ops[-30:]}")
+    if result:
+        return fail(result)
+    if errors:
+        pid, msg = sorted(errors.items())[0]
+        return fail(f"process {pid} failed: {msg}")
+    users = {}
+    for no in sorted({e[0] for e in log}):
+        inside = None
+        prev = None
+        for _, pid, ti, what, c in [e for e in log if e[0] == no]:
+            users.setdefault(no, set()).add((pid, ti))
+            same_proc = inside is not None and inside[0] == pid
+            if what == "enter":
+                if inside is not None:
+                    return fail(
+                        f"user {(pid, ti)} started an exchange with terminal "
+                        f"{no} while user {inside} was inside its own",
+                        ["same-process"] if same_proc else [])
+                inside = (pid, ti)
+            elif what == "exit":
+                inside = None
+            else:
+                if prev is None:
+                    ok = c in range(0, 8)
+                else:
+                    ok = c == prev % 7 + 1
+                if not ok:
+                    return fail(
+                        f"terminal {no}: message counter {c} follows {prev}",
+                        ["same-process"] if same_proc else [])
+                prev = c
+    shared = any(len({p for p, t in u}) >= 2 for u in users.values())
+    return dict(ok=True, nontrivial=shared,
+                key=repr(("x", ops)), classes=classes,
+                summary={"operations": len(ops), "trace": ops[:50],
+                         "messages": len([e for e in log if e[3] == "msg"])})
+
+
 def run_case(case):
+    if case.get("kind") == "xproc":
+        return run_xproc(case)
     nterm = case["terminals"]
     out_sz, in_sz = case["mbx"]
     terms = []
@@ -235,6 +411,11 @@ def run_case(case):
                                    if any(case["latency"]) else []),
                 summary={"messages": [len(t.mbx_log) for t in terms],
                          "users": per_term})
+
+
+def selftest():
+    from .. import sched as vsched
+    vsched.selftest_lockf()
 
 
 KNOWN = {}
